@@ -90,6 +90,12 @@ const (
 
 // NewFunction allocates a new function value.
 func NewFunction(node int, frame *[]Type, paramCnt int, localCnt int) Type {
+	if node < 0 || node >= 1<<(ipHi-ipLo+1) ||
+		paramCnt < 0 || paramCnt >= 1<<(paramsCntHi-paramsCntLo+1) ||
+		localCnt < 0 || localCnt >= 1<<(localCntHi-localCntLo+1) {
+		panic(bytecode.ErrOperandRange)
+	}
+
 	nd := ((uint64)(node)) & ((1 << (ipHi - ipLo + 1)) - 1)
 	pc := ((uint64)(paramCnt)) & ((1 << (paramsCntHi - paramsCntLo + 1)) - 1)
 	lc := ((uint64)(localCnt)) & ((1 << (localCntHi - localCntLo + 1)) - 1)
